@@ -24,6 +24,10 @@
   Canonicalisation IS a renaming (`C13_canon_is_renaming*`, proofs in `Lemmas/CanonIsRenaming.lean`, executable definitions
   in `Lemmas/CanonIsRenamingDefs.lean`, core only): `canon item` is the textual renaming of `item` by the computed
   renaming, followed by the one presentation change of the resolver (`T::A` is printed `<_ŠČn>::A`).
+  Round trip and converse of alpha-invariance (`C13_round_trip`, `C13_same_canon_only_if_renaming`, proofs in
+  `Lemmas/CanonRoundTrip.lean`, executable definitions in `Lemmas/CanonRoundTripDefs.lean`, core only): the block is
+  recovered from its canonical form by the inverse renaming, and two blocks with the same canonical form are textual
+  renamings of each other, under the executable condition `roundTripOK_rt`.
 -/
 import DisjointImpls.Lemmas.CanonLemmas
 import DisjointImpls.Lemmas.CanonIdem
@@ -31,6 +35,7 @@ import DisjointImpls.Lemmas.CanonDeclOrder
 import DisjointImpls.Lemmas.CanonAlpha
 import DisjointImpls.Lemmas.CanonAlphaHeader
 import DisjointImpls.Lemmas.CanonIsRenaming
+import DisjointImpls.Lemmas.CanonRoundTrip
 import DisjointImpls.Group
 namespace DI
 
@@ -909,5 +914,307 @@ theorem C13_renaming_attrs_dropped_example :
     canon crAttr = qselfForm_cr (alphaRenameC_cr (indexImpl crAttr).renaming crAttr) := by
   refine ⟨?_, ?_, ?_⟩ <;> with_unfolding_all decide
 end RenamingExamples
+
+/-! ## The round trip, and the converse of alpha-invariance
+
+`C13_canon_is_renaming` says that `canon item` is the textual renaming of `item` by the computed renaming `r`, followed by the
+presentation change `X::rest… ↦ <X>::rest…`. Both steps can be undone (definitions in `Lemmas/CanonRoundTripDefs.lean`, all
+executable):
+* `r.inv_rt`: the inverse renaming (the pairs of each name space swapped); `r.comp_rt ρ`: first `r`, then `ρ`;
+* `unqsT_rt P` / `unqself_rt r`: every path written `<X>::rest…` EXACTLY as the resolver prints it (`qselfPath`) with `P X`
+  (`X` one of the canonical type names of `r`) is written `X::rest…` again.
+Hence (`C13_round_trip`) the block is recovered from its canonical form, and (`C13_same_canon_only_if_renaming`) two blocks
+with the same canonical block are textual renamings of each other by the computed renaming `r ; r'⁻¹`
+(`renamingBetween_rt item item'`): blocks receive the same canonical block ONLY IF they are equal up to renaming. The IF
+direction is `C13_alpha_invariance`; it FAILS for parameters that occur nowhere (finding D21,
+`C13_converse_dead_parameter_example`). "Renaming" is the textual one, with the per-position name spaces of the code: a
+const parameter written in type position is not an occurrence (finding D24, `C13_converse_const_generic_arg_example`).
+
+The ONE side condition `roundTripOK_rt item` (executable, on the block before canonicalisation; `r` the computed renaming):
+* `canonWF item`           the condition of `C13_canon_is_renaming`; it also gives "no capture by `r⁻¹`" — an identifier in
+                           parameter position, or a declared parameter, that `r` does not rename is not one of the names
+                           handed out in its name space (`C13_canonWF_no_capture`, from `rsOK` and `deadFresh`);
+* `decNF_cr item`          decoder normal form: a `tparam` / `eparam` leaf is a reserved identifier, a lone `Type::Path` /
+                           `Expr::Path` is not (otherwise the inverse renaming builds the other node form);
+* `loneOK_rt r item`       a lone path that is a renamed parameter has no atoms and (expression path) no attributes — it
+                           becomes a leaf, which has neither (`[T; #[a] N]`: the resolver drops `#[a]`);
+* `qsInvOK_rt … (alphaRenameC_cr r item)`  the presentation change is not injective: the user did not write `<T>::A` for a
+                           live type parameter `T` (it is printed like `T::A`), and `T::A` in expression position carries no
+                           attributes (the resolver replaces the whole `ExprPath`).
+Each of the three added clauses has decided counterexamples inside `canonWF` (`C13_round_trip_clauses_needed`,
+`C13_round_trip_one_clause_each`, `C13_same_canon_qself_counterexample`). -/
+
+/-- **the inverse presentation change undoes the presentation change** on a tree that contains no path already written
+    `<X>::rest…` with `P X` and no attributes on an expression path `X::rest…` with `P X` (`qsInvOK_rt P t`, executable) -/
+theorem C13_unqself_undoes_qself (P : String → Bool) (t : T) (h : qsInvOK_rt P t = true) :
+    unqsT_rt P (qsT_cr P t) = t :=
+  unqs_qs_rt P t h
+
+/-- the textual renaming of the occurrences commutes with the respelling of the declarations (no side condition) -/
+theorem C13_renaming_commutes_with_decls (π ρ : Renaming) (t : T) :
+    acT_cr π (renameImplDecls ρ t) = renameImplDecls ρ (acT_cr π t) :=
+  acT_renameImplDecls_rt π ρ t
+
+/-- **two textual renamings compose**: renaming a tree by `r` and then by `ρ` is renaming it by `r ; ρ`. `CompOK_rt r ρ`: the
+    new names of `r` are reserved identifiers, `ρ` is defined exactly on them (per name space, as lists), no name is new for
+    a type and for a const parameter. `acOK_rt r t` (executable): no capture, lone renamed paths without atoms / attributes -/
+theorem C13_renamings_compose {r ρ : Renaming} (ok : CompOK_rt r ρ) (t : T) (h : acOK_rt r t = true) :
+    acT_cr ρ (acT_cr r t) = acT_cr (r.comp_rt ρ) t :=
+  acT_comp_rt ok t h
+
+/-- … for blocks (declarations respelled as well) -/
+theorem C13_block_renamings_compose {r ρ : Renaming} (ok : CompOK_rt r ρ) (item : T) (h1 : acOK_rt r item = true)
+    (h2 : declsFresh_rt r item = true) :
+    alphaRenameC_cr ρ (alphaRenameC_cr r item) = alphaRenameC_cr (r.comp_rt ρ) item :=
+  alphaRenameC_comp_rt ok item h1 h2
+
+/-- **`canonWF` gives the no-capture conditions** of the composition for the computed renaming: `acOK_rt r item` (given its
+    shape part `loneOK_rt r item`: lone renamed paths without atoms / attributes) and `declsFresh_rt r item` -/
+theorem C13_canonWF_no_capture (item : T) (h : canonWF item = true) :
+    (loneOK_rt (indexImpl item).renaming item = true → acOK_rt (indexImpl item).renaming item = true) ∧
+    declsFresh_rt (indexImpl item).renaming item = true :=
+  acOK_of_canonWF_rt item h
+
+/-- an identity renaming changes nothing on a tree in decoder normal form -/
+theorem C13_identity_renaming (π : Renaming) (hid : π.isId = true) (t : T) (h : decNF_cr t = true) : acT_cr π t = t :=
+  acT_id_rt π hid t h
+
+/-- **the inverse renaming undoes a renaming** whose new names are reserved identifiers, pairwise distinct per name space
+    (`InvOK_rt r`; it holds for every renaming the indexer computes, `C13_computed_renaming_invertible`) -/
+theorem C13_inverse_renaming {r : Renaming} (hr : InvOK_rt r) (item : T) (h1 : acOK_rt r item = true)
+    (h2 : declsFresh_rt r item = true) (h3 : decNF_cr item = true) :
+    alphaRenameC_cr r.inv_rt (alphaRenameC_cr r item) = item :=
+  alphaRenameC_inv_rt hr item h1 h2 h3
+
+theorem C13_computed_renaming_invertible (item : T) : InvOK_rt (indexImpl item).renaming := renaming_invOK_rt item
+
+/-- undoing the presentation change on the canonical block gives the textual renaming of the block -/
+theorem C13_unqself_canon (item : T) (h : roundTripOK_rt item = true) :
+    unqself_rt (indexImpl item).renaming (canon item) = alphaRenameC_cr (indexImpl item).renaming item :=
+  unqself_canon_rt item h
+
+/-- **the round trip**: the block is recovered from its canonical block and the computed renaming `r` — undo the
+    presentation change (`<_ŠČn>::rest… ↦ _ŠČn::rest…` for the canonical type names), then rename textually by `r⁻¹`.
+    Side condition: `roundTripOK_rt item` (executable) only. -/
+theorem C13_round_trip (item : T) (h : roundTripOK_rt item = true) :
+    alphaRenameC_cr (indexImpl item).renaming.inv_rt (unqself_rt (indexImpl item).renaming (canon item)) = item :=
+  round_trip_rt item h
+
+/-- the canonical block carries the names handed out (per name space, in the order of the numbering): blocks with the same
+    canonical block were handed the same names -/
+theorem C13_canon_names (item : T) (h : canonWF item = true) :
+    (indexImpl (canon item)).renaming.lt.map Prod.snd = (indexImpl item).renaming.lt.map Prod.snd ∧
+    (indexImpl (canon item)).renaming.ty.map Prod.snd = (indexImpl item).renaming.ty.map Prod.snd ∧
+    (indexImpl (canon item)).renaming.co.map Prod.snd = (indexImpl item).renaming.co.map Prod.snd :=
+  canon_names_rt item h
+
+/-- **the converse of alpha-invariance**: two blocks receive the same canonical block ONLY IF they are textual renamings of
+    each other — `item'` is `item` renamed by the computed renaming `r ; r'⁻¹` (`renamingBetween_rt item item'`: canonicalise
+    `item`, undo the canonicalisation of `item'`; it pairs the `i`-th numbered parameter of `item` with the `i`-th numbered
+    parameter of `item'`). Side condition: `roundTripOK_rt` (executable) for both blocks. Parameters that occur nowhere keep
+    their spelling in the canonical block (finding D21), so they are spelled alike in both blocks and the renaming does not
+    touch them. -/
+theorem C13_same_canon_only_if_renaming (item item' : T) (h : roundTripOK_rt item = true) (h' : roundTripOK_rt item' = true)
+    (e : canon item = canon item') : alphaRenameC_cr (renamingBetween_rt item item') item = item' :=
+  same_canon_only_if_renaming_rt item item' h h' e
+
+/-- … in terms of the user-level renaming `alphaRename` of the alpha-invariance theorems, when the computed renaming
+    relates ordinary names to ordinary names and reserved names to reserved names (`formOK`, executable) -/
+theorem C13_same_canon_only_if_alphaRename (item item' : T) (h : roundTripOK_rt item = true)
+    (h' : roundTripOK_rt item' = true) (e : canon item = canon item')
+    (hf : formOK (renamingBetween_rt item item') = true) : alphaRename (renamingBetween_rt item item') item = item' := by
+  rw [← alphaRenameC_eq_cr _ item hf (roundTripOK_parts_rt h).2.1]
+  exact same_canon_only_if_renaming_rt item item' h h' e
+
+/-- **same canonical block IFF textual renaming of each other**, for blocks without parameters that occur nowhere: the two
+    directions (`C13_alpha_invariance`, `C13_same_canon_only_if_renaming`) put together, for the computed renaming -/
+theorem C13_same_canon_iff_renaming (item item' : T) (h : roundTripOK_rt item = true) (h' : roundTripOK_rt item' = true)
+    (hf : formOK (renamingBetween_rt item item') = true) (hal : alphaOK (renamingBetween_rt item item') item = true) :
+    canon item = canon item' ↔ alphaRename (renamingBetween_rt item item') item = item' := by
+  constructor
+  · exact fun e => C13_same_canon_only_if_alphaRename item item' h h' e hf
+  · intro e
+    rw [← e]
+    exact (C13_alpha_invariance _ item (roundTripOK_parts_rt h).1 hal).symm
+
+/-- **the tree-level converse, in the form the grouping uses** (trait path and self type are resolved by `rsT r`): two trees
+    that two renamings handing out the SAME names (per name space, as lists — executable) resolve to the same tree are
+    textual renamings of each other by `r ; r'⁻¹`. Side conditions, all executable: `renOK_cr` (the shape condition of
+    `C13_rs_is_renaming`), `qsInvOK_rt` on the renamed trees, `acOK_rt` (no capture, lone renamed paths without atoms /
+    attributes), `decNF_cr t'`; `InvOK_rt` holds for computed renamings (`C13_computed_renaming_invertible`). The corollary
+    "`groupIdOf (canon item) = groupIdOf (canon item')` → the headers are renamings of each other" for blocks whose every
+    parameter occurs in the header is NOT derived: it needs "equal canonical headers were handed the same names", which is
+    open (for equal canonical BLOCKS it is `C13_canon_names`). -/
+theorem C13_same_resolved_only_if_renaming {r r' : Renaming} (hr : InvOK_rt r) (hr' : InvOK_rt r')
+    (elt : r'.lt.map Prod.snd = r.lt.map Prod.snd) (ety : r'.ty.map Prod.snd = r.ty.map Prod.snd)
+    (eco : r'.co.map Prod.snd = r.co.map Prod.snd) (t t' : T)
+    (h1 : renOK_cr r.tyNames_cr.contains r t = true) (h1' : renOK_cr r'.tyNames_cr.contains r' t' = true)
+    (h2 : qsInvOK_rt r.tyNames_cr.contains (acT_cr r t) = true)
+    (h2' : qsInvOK_rt r'.tyNames_cr.contains (acT_cr r' t') = true)
+    (h3 : acOK_rt r t = true) (h3' : acOK_rt r' t' = true) (h4' : decNF_cr t' = true)
+    (e : rsT r t = rsT r' t') : acT_cr (r.comp_rt r'.inv_rt) t = t' :=
+  same_resolved_only_if_renaming_rt hr hr' elt ety eco t t' h1 h1' h2 h2' h3 h3' h4' e
+
+namespace Ex13
+/-- `impl<T> Kita for <T>::A {}`: the user wrote the qualified form -/
+def rtQself : T := implOf [tyParam "T" []]
+  (.node "Type::Path" [] [.node "Some" [] [.node "QSelf" [] [tyPath [seg "T"], .node "Atom" ["0"] [], leaf "None"]],
+    .node "Path" [] [.node "IgnL" [] [.node "Some" ["PathSep"] []], .node "List" [] [seg "A"]]])
+/-- `impl<T> Kita for T::A {}` -/
+def rtPlain : T := implOf [tyParam "T" []] (tyPath [seg "T", seg "A"])
+/-- `impl<T> Kita for T {}` with `T` as a `tparam` leaf: not in decoder normal form -/
+def rtLeaf : T := implOf [tyParam "T" []] (.tparam "T")
+/-- `impl<T> Kita for T {}` with an atom on the lone path -/
+def rtAtoms : T := implOf [tyParam "T" []] (.node "Type::Path" ["x"] [leaf "None", path [seg "T"]])
+/-- `impl<T> Kita for [u8; #[a] T::N] {}`: attributes on a multi-segment parameter expression -/
+def rtExprAttr : T := implOf [tyParam "T" []]
+  (array (tyPath [seg "u8"]) (.node "Expr::Path" [] [.node "Ign" [] [.node "List" [] [leaf "Attribute"]], leaf "None", path [seg "T", seg "N"]]))
+/-- `swapped` respelled by `_ŠČ1 ↦ _ŠČ5, _ŠČ0 ↦ _ŠČ1` -/
+def swappedRenamed : T := alphaRename piSwapped swapped
+/-- `impl<T, E> Kita for T {}`: `alphaDead` with the unused `D` respelled -/
+def alphaDeadE : T := alphaRename piDead alphaDead
+/-- `impl<T, const M: usize> Kita for (W<T, N>, [T; M]) {}`: `crConstArg` with the const parameter respelled where the
+    code sees it -/
+def crConstArgM : T := implOf [tyParam "T" [], coParam "M"]
+  (tuple [wOf (tyPath [seg "T"]) (tyPath [seg "N"]), array (tyPath [seg "T"]) (exprPath [seg "M"])])
+/-- the four clauses of `roundTripOK_rt` -/
+def rtClauses (item : T) : Bool × Bool × Bool × Bool :=
+  let r := (indexImpl item).renaming
+  (canonWF item, decNF_cr item, loneOK_rt r item, qsInvOK_rt r.tyNames_cr.contains (alphaRenameC_cr r item))
+/-- the round trip, computed -/
+def rtHolds (item : T) : Bool :=
+  alphaRenameC_cr (indexImpl item).renaming.inv_rt (unqself_rt (indexImpl item).renaming (canon item)) == item
+end Ex13
+
+section RoundTripExamples
+open Ex13
+set_option maxRecDepth 100000
+
+/-- non-vacuity of `C13_round_trip` on the three example blocks (user names with `T::Target`; reserved names in the wrong
+    order; a lifetime, two type parameters, a const parameter, a where-clause and `T::Target`): the hypothesis holds, the
+    inverse renamings are computed (none is the identity), and both sides of the equation are computed -/
+theorem C13_round_trip_examples :
+    (roundTripOK_rt named = true ∧ (indexImpl named).renaming.inv_rt = ⟨[], [("_ŠČ0", "T"), ("_ŠČ1", "U")], []⟩ ∧
+      unqself_rt (indexImpl named).renaming (canon named) ≠ canon named ∧
+      alphaRenameC_cr (indexImpl named).renaming.inv_rt (unqself_rt (indexImpl named).renaming (canon named)) = named) ∧
+    (roundTripOK_rt swapped = true ∧ (indexImpl swapped).renaming.inv_rt = ⟨[], [("_ŠČ0", "_ŠČ1"), ("_ŠČ1", "_ŠČ0")], []⟩ ∧
+      alphaRenameC_cr (indexImpl swapped).renaming.inv_rt (unqself_rt (indexImpl swapped).renaming (canon swapped)) = swapped ∧
+      canon swapped ≠ swapped) ∧
+    (roundTripOK_rt mixed = true ∧
+      (indexImpl mixed).renaming.inv_rt = ⟨[("_ŠČ0", "a")], [("_ŠČ1", "T"), ("_ŠČ3", "U")], [("_ŠČ2", "N")]⟩ ∧
+      alphaRenameC_cr (indexImpl mixed).renaming.inv_rt (unqself_rt (indexImpl mixed).renaming (canon mixed)) = mixed ∧
+      canon mixed ≠ mixed) := by
+  refine ⟨⟨?_, ?_, ?_, ?_⟩, ⟨?_, ?_, ?_, ?_⟩, ?_, ?_, ?_, ?_⟩ <;> with_unfolding_all decide
+
+/-- non-vacuity of `C13_same_canon_only_if_renaming` (and of the `alphaRename` form, and of the equivalence): `named`
+    against `impl<B, A: Tr<B>> Kita for (A, A::Target)`, `mixed` against the block with `'a ↦ 'b`, `T` and `U` swapped,
+    `N ↦ M`, `swapped` against its respelling by reserved names — the hypotheses hold, the canonical blocks are equal, the
+    computed renamings are the expected ones (none is the identity), in both directions -/
+theorem C13_same_canon_examples :
+    (roundTripOK_rt named = true ∧ roundTripOK_rt namedAB = true ∧ canon named = canon namedAB ∧
+      renamingBetween_rt named namedAB = ⟨[], [("T", "A"), ("U", "B")], []⟩ ∧
+      alphaRenameC_cr (renamingBetween_rt named namedAB) named = namedAB ∧
+      renamingBetween_rt namedAB named = ⟨[], [("A", "T"), ("B", "U")], []⟩ ∧
+      alphaRenameC_cr (renamingBetween_rt namedAB named) namedAB = named ∧
+      formOK (renamingBetween_rt named namedAB) = true ∧ alphaOK (renamingBetween_rt named namedAB) named = true) ∧
+    (roundTripOK_rt mixed = true ∧ roundTripOK_rt mixedRenamed = true ∧ canon mixed = canon mixedRenamed ∧
+      renamingBetween_rt mixed mixedRenamed = ⟨[("a", "b")], [("T", "U"), ("U", "T")], [("N", "M")]⟩ ∧
+      alphaRenameC_cr (renamingBetween_rt mixed mixedRenamed) mixed = mixedRenamed ∧ mixedRenamed ≠ mixed ∧
+      formOK (renamingBetween_rt mixed mixedRenamed) = true ∧ alphaOK (renamingBetween_rt mixed mixedRenamed) mixed = true) ∧
+    (roundTripOK_rt swapped = true ∧ roundTripOK_rt swappedRenamed = true ∧ canon swapped = canon swappedRenamed ∧
+      renamingBetween_rt swapped swappedRenamed = ⟨[], [("_ŠČ1", "_ŠČ5"), ("_ŠČ0", "_ŠČ1")], []⟩ ∧
+      alphaRenameC_cr (renamingBetween_rt swapped swappedRenamed) swapped = swappedRenamed ∧ swappedRenamed ≠ swapped) := by
+  refine ⟨⟨?_, ?_, ?_, ?_, ?_, ?_, ?_, ?_, ?_⟩, ⟨?_, ?_, ?_, ?_, ?_, ?_, ?_, ?_⟩, ?_, ?_, ?_, ?_, ?_, ?_⟩
+  all_goals first | with_unfolding_all decide | decide +kernel
+
+/-- non-vacuity of the tree-level theorems: `C13_unqself_undoes_qself` on the renamed self type of `named` (the presentation
+    change applies), `C13_renamings_compose` / `C13_inverse_renaming` for the computed renaming of `named` and its inverse -/
+theorem C13_round_trip_tree_examples :
+    (qsInvOK_rt ["_ŠČ0", "_ŠČ1"].contains (tuple [.tparam "_ŠČ0", tyPath [seg "_ŠČ0", seg "Target"]]) = true ∧
+      qsT_cr ["_ŠČ0", "_ŠČ1"].contains (tuple [.tparam "_ŠČ0", tyPath [seg "_ŠČ0", seg "Target"]]) ≠
+        tuple [.tparam "_ŠČ0", tyPath [seg "_ŠČ0", seg "Target"]] ∧
+      unqsT_rt ["_ŠČ0", "_ŠČ1"].contains (qsT_cr ["_ŠČ0", "_ŠČ1"].contains (tuple [.tparam "_ŠČ0", tyPath [seg "_ŠČ0", seg "Target"]])) =
+        tuple [.tparam "_ŠČ0", tyPath [seg "_ŠČ0", seg "Target"]]) ∧
+    (acOK_rt (indexImpl named).renaming named = true ∧ declsFresh_rt (indexImpl named).renaming named = true ∧
+      loneOK_rt (indexImpl named).renaming named = true ∧ decNF_cr named = true ∧
+      (indexImpl named).renaming.comp_rt (indexImpl named).renaming.inv_rt = ⟨[], [("T", "T"), ("U", "U")], []⟩ ∧
+      ((indexImpl named).renaming.comp_rt (indexImpl named).renaming.inv_rt).isId = true) := by
+  refine ⟨⟨?_, ?_, ?_⟩, ?_, ?_, ?_, ?_, ?_, ?_⟩ <;> with_unfolding_all decide
+
+/-- non-vacuity of `C13_renamings_compose` / `C13_block_renamings_compose`: `CompOK_rt` holds for the renaming computed for
+    `named` and the inverse of the one computed for `impl<B, A: Tr<B>> Kita for (A, A::Target)` -/
+example : CompOK_rt (indexImpl named).renaming (indexImpl namedAB).renaming.inv_rt ∧
+    acOK_rt (indexImpl named).renaming named = true ∧ declsFresh_rt (indexImpl named).renaming named = true :=
+  ⟨compOK_inv_rt (renaming_invOK_rt named) (by with_unfolding_all decide) (by with_unfolding_all decide)
+    (by with_unfolding_all decide), by with_unfolding_all decide, by with_unfolding_all decide⟩
+
+/-- non-vacuity of `C13_same_resolved_only_if_renaming`: the self types `(T, T::Target)` of `named` and `(A, A::Target)` of
+    `impl<B, A: Tr<B>> Kita for (A, A::Target)` under the renamings computed for the two blocks — same names handed out, same
+    resolved tree, all side conditions hold, and the conclusion computed -/
+theorem C13_same_resolved_example :
+    let r := (indexImpl named).renaming
+    let r' := (indexImpl namedAB).renaming
+    let t := tuple [tyPath [seg "T"], tyPath [seg "T", seg "Target"]]
+    let t' := tuple [tyPath [seg "A"], tyPath [seg "A", seg "Target"]]
+    (r'.lt.map Prod.snd = r.lt.map Prod.snd ∧ r'.ty.map Prod.snd = r.ty.map Prod.snd ∧ r'.co.map Prod.snd = r.co.map Prod.snd) ∧
+    (renOK_cr r.tyNames_cr.contains r t = true ∧ renOK_cr r'.tyNames_cr.contains r' t' = true) ∧
+    (qsInvOK_rt r.tyNames_cr.contains (acT_cr r t) = true ∧ qsInvOK_rt r'.tyNames_cr.contains (acT_cr r' t') = true) ∧
+    (acOK_rt r t = true ∧ acOK_rt r' t' = true ∧ decNF_cr t' = true) ∧
+    rsT r t = rsT r' t' ∧ acT_cr (r.comp_rt r'.inv_rt) t = t' ∧ t ≠ t' := by
+  refine ⟨⟨?_, ?_, ?_⟩, ⟨?_, ?_⟩, ⟨?_, ?_⟩, ⟨?_, ?_, ?_⟩, ?_, ?_, ?_⟩ <;> with_unfolding_all decide
+
+/-- **the clauses of `roundTripOK_rt` are needed**: five blocks inside `canonWF`, each violating exactly one clause (see
+    `C13_round_trip_one_clause_each`), and the round trip fails on each of them:
+    `impl<T> Kita for <T>::A` (the user wrote the qualified form; it is printed like `T::A`, and the round trip returns
+    `T::A`), `impl<T> Kita for [u8; #[a] T::N]` (attributes on a path the presentation change rewrites), `impl<T> Kita for T`
+    with `T` as a reserved-form leaf (not in decoder normal form), a lone path with an atom, `[T; #[a] N]` (attributes on a
+    lone parameter expression, dropped by the resolver) -/
+theorem C13_round_trip_clauses_needed :
+    (roundTripOK_rt rtQself = false ∧ rtHolds rtQself = false) ∧
+    (roundTripOK_rt rtExprAttr = false ∧ rtHolds rtExprAttr = false) ∧
+    (roundTripOK_rt rtLeaf = false ∧ rtHolds rtLeaf = false) ∧
+    (roundTripOK_rt rtAtoms = false ∧ rtHolds rtAtoms = false) ∧
+    (roundTripOK_rt crAttr = false ∧ rtHolds crAttr = false) := by
+  refine ⟨⟨?_, ?_⟩, ⟨?_, ?_⟩, ⟨?_, ?_⟩, ⟨?_, ?_⟩, ?_, ?_⟩ <;> with_unfolding_all decide
+
+/-- … and only that clause (`canonWF`, `decNF_cr`, `loneOK_rt`, `qsInvOK_rt`) -/
+theorem C13_round_trip_one_clause_each :
+    [rtQself, rtExprAttr, rtLeaf, rtAtoms, crAttr].map rtClauses =
+    [(true, true, true, false), (true, true, true, false), (true, false, true, true),
+     (true, true, false, true), (true, true, false, true)] := by
+  with_unfolding_all decide
+
+/-- **the presentation change is not injective** (the clause `qsInvOK_rt` is needed for the converse as well):
+    `impl<T> Kita for <T>::A` and `impl<T> Kita for T::A` receive the same canonical block and are NOT textual renamings of
+    each other (the computed renaming is the identity `T ↦ T`). They denote the same type in Rust — `<T>::A` and `T::A` are
+    the same path for a type parameter `T` — so nothing is wrong with the code; the second block satisfies the condition -/
+theorem C13_same_canon_qself_counterexample :
+    canon rtQself = canon rtPlain ∧ roundTripOK_rt rtQself = false ∧ roundTripOK_rt rtPlain = true ∧
+    renamingBetween_rt rtQself rtPlain = ⟨[], [("T", "T")], []⟩ ∧
+    alphaRenameC_cr (renamingBetween_rt rtQself rtPlain) rtQself ≠ rtPlain := by
+  refine ⟨?_, ?_, ?_, ?_, ?_⟩ <;> with_unfolding_all decide
+
+/-- **dead parameters (finding D21)**: `impl<T, D> Kita for T` and `impl<T, E> Kita for T` ARE renamings of each other
+    (`D ↦ E`), both satisfy `roundTripOK_rt` (the round trip holds: the unused `D` keeps its spelling in the canonical block
+    and is not touched by `r⁻¹`), and they receive DIFFERENT canonical blocks: the ONLY-IF direction
+    (`C13_same_canon_only_if_renaming`) is a theorem, the IF direction needs `deadFixed` (`C13_alpha_dead_counterexample`) -/
+theorem C13_converse_dead_parameter_example :
+    roundTripOK_rt alphaDead = true ∧ roundTripOK_rt alphaDeadE = true ∧ rtHolds alphaDead = true ∧
+    alphaRename piDead alphaDead = alphaDeadE ∧ canon alphaDead ≠ canon alphaDeadE ∧
+    (implParams (canon alphaDead)).map paramIdent = [some "_ŠČ0", some "D"] ∧
+    (implParams (canon alphaDeadE)).map paramIdent = [some "_ŠČ0", some "E"] := by
+  refine ⟨?_, ?_, ?_, ?_, ?_, ?_, ?_⟩ <;> with_unfolding_all decide
+
+/-- **const parameter in type position (finding D24)**: `impl<T, const N: usize> Kita for (W<T, N>, [T; N])` and
+    `impl<T, const M: usize> Kita for (W<T, N>, [T; M])` satisfy `roundTripOK_rt`, receive the SAME canonical block
+    (`W<_ŠČ0, N>` keeps the `N` the code does not see), and the second is the textual renaming of the first by `N ↦ M` in the
+    const name space — as the theorem says. In Rust's sense they are not renamings of each other (in the second block `N`
+    is not declared at all): "renaming" in `C13_same_canon_only_if_renaming` has the per-position name spaces of the code -/
+theorem C13_converse_const_generic_arg_example :
+    roundTripOK_rt crConstArg = true ∧ roundTripOK_rt crConstArgM = true ∧ canon crConstArg = canon crConstArgM ∧
+    renamingBetween_rt crConstArg crConstArgM = ⟨[], [("T", "T")], [("N", "M")]⟩ ∧
+    alphaRenameC_cr (renamingBetween_rt crConstArg crConstArgM) crConstArg = crConstArgM ∧ rtHolds crConstArg = true := by
+  refine ⟨?_, ?_, ?_, ?_, ?_, ?_⟩ <;> with_unfolding_all decide
+end RoundTripExamples
 
 end DI
